@@ -290,6 +290,38 @@ def empty_flux_histories():
                "shape": "emptyflux:wired"}
 
 
+DEGENERATE = [
+    ["add_reaction", "r0", {**fn(["k"], A(0)), "st": []}],                      # a reaction that moves nothing
+    ["add_derived", "d0", fn([], K(7))],                                         # a constant: no arguments
+    ["add_readout", "ro0", fn([], K(1))],
+    ["add_parameter", "p0", {"ia": fn([], K(3))}],                               # assignment without arguments
+    ["add_surrogate", "s0", {"args": [], "outs": ["oz"], "es": [K(1)], "st": []}],  # a surrogate without arguments / fluxes
+    ["add_surrogate", "s3", SUR3],                                               # an output flux wired to nothing
+    ["add_variable", "w", {"v": "0"}],                                           # a variable no reaction touches
+]
+
+
+def degenerate_histories():
+    """components of degenerate shape (empty stoichiometry, no arguments, no outputs, an unwired flux, an untouched
+    variable) next to the BASE model, then one edit that has to walk over them, then the getters"""
+    muts = [["remove_variable", "x", True], ["remove_variable", "w", True], ["make_variable_static", "w", None],
+            ["make_variable_static", "x", "2"], ["make_parameter_dynamic", "k", None, [["r0", "1"]]],
+            ["make_parameter_dynamic", "p0", None, [["ef", "1"]]], ["make_parameter_dynamic", "p0", None, None],
+            ["update_reaction", "r0", None, None, [["w", {"c": "1"}]]], ["update_reaction", "r1", None, None, []],
+            ["remove_reaction", "r0"], ["remove_surrogate", "s0"], ["remove_surrogate", "s3"],
+            ["update_surrogate", "s0", None, None, ["oa"], None], ["update_surrogate", "s3", None, None, [], None],
+            ["update_derived", "d0", None, ["k"]], ["remove_derived", "d0"], ["remove_readout", "ro0"],
+            ["scale_parameter", "p0", "2"], ["update_parameter", "p0", {"v": "1"}], ["remove_parameter", "p0"],
+            ["add_variable", "ef", {"v": "1"}], ["add_parameter", "oa", {"v": "1"}]]
+    qs = [["q", "stoich", ["1", "2", "3", "1"], "1"], ["q", "names", "surrxns"], ["q", "names", "survars"],
+          ["q", "names", "unused"], ["q", "fluxes", None, "0"], ["q", "eq"]]
+    for q in (None, QUERIES[0]):
+        for m in muts:
+            mid = DEGENERATE + ([q] if q else []) + [m] + qs
+            yield {"ops": BASE + mid + BATTERY, "check_from": len(BASE), "stratum": "degenerate",
+                   "shape": f"degenerate:{m[0]}"}
+
+
 def copy_histories():
     """deep copy / pickle round trip of a model with and without a filled cache, then an edit of the copy and queries:
     the copy answers like a fresh model with ITS content, the original keeps its own, `==` ignores the cache"""
